@@ -5,6 +5,7 @@ families around the real length + malformed strings; validated by HttpRangeTrace
 from __future__ import annotations
 
 import datetime
+import io
 import random
 import re
 from typing import Any
@@ -202,6 +203,31 @@ def main(tier_: str) -> int:
                                   'raw': raw if raw is not None else '(absent)', 'url': url, 'r': r})
             if usable < 9:
                 raise MachineryFailure(f'only {usable} range-capable URLs usable: {out.notes}')
+            # ---- a file that is replaced under the same name by one of another size: the length every Range decision and the
+            # Content-Range header depend on is the length of the file that is stored now
+            from harness.mgmt import Session, ids
+            ms = Session(da, 'media')
+            spk = ids(da)['streams']['bbb']
+            fx = da.blob_folder / 'bbb'
+            for gen, content in enumerate(((fx / 'bbb_t1.mp4').read_bytes(), (fx / 'bbb_a2.mp4').read_bytes(), (fx / 'bbb_t1.mp4').read_bytes()[:5000] +
+                                           (fx / 'bbb_t1.mp4').read_bytes())):
+                if gen == 2:
+                    break       # two generations are enough; the third (not a valid file) is not uploaded
+                tok = ms.harvest(spk).get('upload', '')
+                ur = ms.request('POST', f'/media/{spk}/blob?ajax=1', data={'csrf_token': tok, 'file': (io.BytesIO(content), 'swap_t9.mp4')},
+                                content_type='multipart/form-data')
+                mfid = (ur.get_json(silent=True) or {}).get('pk')
+                if not mfid:
+                    raise MachineryFailure(f'upload of the replaceable file failed: {ur.status_code}')
+                ms.request('GET', f'/media/index/{mfid}?csrf_token={ms.mint("files")}&ajax=1')
+                url = '/dash/odvod/bbb/swap_t9.mp4'
+                L = len(content)
+                for raw in ['bytes=0-', 'bytes=-100', f'bytes={L}-', f'bytes={L - 1}-', f'bytes=0-{L - 1}', f'bytes=-{L + 1}', 'bytes=600-', 'bytes=10-19',
+                            f'bytes={L - 10}-{L + 10}', 'bytes=6757-', 'bytes=6000-7000']:
+                    tid += 1
+                    rr = c.get(url, headers={'Range': raw})
+                    lines.append({'tid': tid, 'layer': 'http', 'h': classify(raw), 'L': L, 'mandatory': 1, 'raw': raw, 'url': f'{url} (generation {gen + 1})',
+                                  'r': project(rr.status_code, dict(rr.headers), rr.data, content, L)})
         vs, st = validate_trace('HttpRangeTrace', lines, workdir=d, chunk=5000, parallel=4)
         drift = 0
         for v in vs:
